@@ -111,8 +111,9 @@ func CheckTokenGame(pfx string, prog *Program, hist []simlog.Ev) *TokenGameResul
 					vl.add(pfx+"/catch-left-without-token", "step %d: catch event %s continued although the token game has no token waiting there", ev.Step, ev.A)
 				}
 			}
-		case "ev":
-			// an event handed to the instance at a moment when the engine was quiescent
+		case "ev", "ev!":
+			// an event handed to the instance at a moment when the engine was quiescent (or whose effect
+			// does not depend on the order among the events delivered with it)
 			m.Deliver(ev.A, ev.B)
 		case "ans-err", "ans-skip":
 			taskErrWant[ev.A]++
